@@ -136,5 +136,48 @@ func runC09Layers(sum *Summary) error {
 			}
 		}
 	}
+	// binary keys: a range end that merely STARTS with a NUL byte is an ordinary bound, not the wildcard
+	{
+		be := func(i int) []byte { return []byte{0, 0, 0, byte(i)} }
+		for i := 0; i < 10; i++ {
+			if _, err := at.Put(ctx, &regattapb.PutRequest{Table: []byte("t"), Key: be(i), Value: []byte("v")}); err != nil {
+				return err
+			}
+		}
+		for _, flags := range [][2]bool{{false, false}, {true, false}, {false, true}} {
+			for _, limit := range []int64{0, 2, 3} {
+				req := &regattapb.RangeRequest{Table: []byte("t"), Key: be(2), RangeEnd: be(5), Limit: limit, KeysOnly: flags[0], CountOnly: flags[1], Linearizable: true}
+				in := map[string]any{"stored": "keys 00 00 00 00 .. 00 00 00 09", "range": "[00 00 00 02, 00 00 00 05)", "limit": limit, "keys_only": flags[0], "count_only": flags[1]}
+				sum.Evaluations++
+				wantN := int64(3)
+				if limit > 0 && limit < 3 {
+					wantN = limit
+				}
+				wantMore := limit > 0 && limit < 3
+				check := func(layer string, kvs []*regattapb.KeyValue, count int64, more bool) {
+					bad := count != wantN || more != wantMore
+					for _, kv := range kvs {
+						if bytes.Compare(kv.Key, be(5)) >= 0 || bytes.Compare(kv.Key, be(2)) < 0 {
+							bad = true
+						}
+					}
+					if bad {
+						in["layer"] = layer
+						sum.violate(410000, "a range read with a range end starting with a NUL byte does not return exactly the pairs of [key, range_end)", in, fmt.Sprintf("count %d more %v pairs %d (expected %d, more %v)", count, more, len(kvs), wantN, wantMore))
+					}
+				}
+				base, err := h.reps[0].read(gRange{Key: be(2), End: be(5), Limit: limit, KeysOnly: flags[0], CountOnly: flags[1]})
+				if err != nil {
+					return err
+				}
+				check("state machine", base.Kvs, base.Count, base.More)
+				sr, err := srv.Range(ctx, req)
+				if err != nil {
+					return err
+				}
+				check("KV.Range", sr.Kvs, sr.Count, sr.More)
+			}
+		}
+	}
 	return nil
 }
